@@ -695,6 +695,13 @@ void QXmppOutgoingClient::handlePacketReceived(const QDomElement &nodeRecv)
 
 HandleElementResult QXmppOutgoingClient::handleElement(const QDomElement &nodeRecv)
 {
+    // No stanza is processed (and possibly answered) over an unencrypted link if TLS is required.
+    // A server sending stanzas before STARTTLS violates RFC 6120, section 5.3.1.
+    if (nodeRecv.namespaceURI() == ns_client && !socket()->isEncrypted() &&
+        configuration().streamSecurityMode() == QXmppConfiguration::TLSRequired) {
+        return Rejected;
+    }
+
     // handle SM acks, stanza counter and IQ responses
     if (streamAckManager().handleStanza(nodeRecv) || iqManager().handleStanza(nodeRecv)) {
         return Accepted;
